@@ -920,12 +920,8 @@ impl ExecutionEngine {
                     .get(variable)
                     .and_then(|id| database.decode_any(*id))
                     .unwrap_or_default();
-                let comparison = match (left_value.parse::<f64>(), right_value.parse::<f64>()) {
-                    (Ok(left), Ok(right)) => left
-                        .partial_cmp(&right)
-                        .unwrap_or(std::cmp::Ordering::Equal),
-                    _ => left_value.cmp(&right_value),
-                };
+                let comparison =
+                    crate::execute_query::compare_order_keys(&left_value, &right_value);
                 let comparison = match direction {
                     SortDirection::Asc => comparison,
                     SortDirection::Desc => comparison.reverse(),
